@@ -23,3 +23,22 @@ add('C20', 'property-based testing with a validity predicate over recorded trave
     'Generated DAGs x start sets x DFS/BFS x directions x hook subsets: all order/coverage predicates of the statement '
     'checked on the recorded trace against own reachability; cyclic bench texts decide the cycle check both ways.',
     TRUST)
+
+add('C15', 'property-based testing of soundness/monotonicity against all completions + exhaustive three-valued operator tables',
+    'Generated circuits x all 3^n partial assignments x three entry points; each defined value checked constant on the '
+    'cube of completions against the reference full table, all one-step refinements, totality; operator tables over '
+    '{F,T,U}^k (k<=4) enumerated completely.',
+    TRUST)
+add('C03', 'property-based metamorphic testing: reference truth table / interface / argument snapshot before vs after each pass or pipeline',
+    'Generated circuits (unary chains, duplicates, equivalents, constants, dead logic) x passes and grammar-generated '
+    'pipelines; function, interface, argument immutability, size and well-formedness checked on every case.',
+    TRUST)
+add('C18', 'property-based testing of pass post-conditions and the algebraic law pipeline == sequencing',
+    'Single passes checked against the post-condition the statement words (own reachability, duplicate signature, '
+    'reference-table uniqueness, unary-chain predicates under the stated pre-conditions); every generated pipeline '
+    'shape compared with manual sequencing by Circuit.__eq__.',
+    TRUST)
+add('C14', 'property-based metamorphic testing of into_bench with a structural invariant and helper-in-block predicate',
+    'Generated circuits with all rewritten gate types, identical operands, outputs and block members; per-gate reference '
+    'tables, allowed type set, users multiset / top-sort invariant and block membership of helper gates after conversion.',
+    TRUST)
